@@ -1,6 +1,7 @@
-(* C10 for Scala, the lexical half: layout layer, decision layer, whole file - outside the finding class
-   C10-scala-package-brace (a package name without a dot: the closing braces are printed, the openers are not),
-   for which the witness lemma shows the generated text is NOT balanced. *)
+(* C10 for Scala, the lexical half: layout layer, decision layer, whole file - for every admissible package name,
+   with or without a dot (the /repo fix of C10-scala-package-brace made end_package / end_package_object close a
+   block only when begin_package / begin_package_object opened one; before it the statement carried the carve-out
+   "package name with a dot, or nothing to print"). *)
 From Coq Require Import List Bool Lia ZifyBool ZifyN NArith Permutation.
 From TS Require Import Model.Str Model.Outcome Model.Unicode Model.Types Model.Parse Model.Rename Model.TopsortAlgo Model.Topsort
                        Model.Lang.Common Model.Lang.Decl Model.Lang.Scala.
@@ -129,6 +130,11 @@ Proof.
   destruct (sc_rsplit_once c r) as [[a' b']|].
   - injection H as <- <-. cbn [app]. f_equal. apply IH. reflexivity.
   - destruct (N.eqb x c) eqn:E; [|discriminate]. injection H as <- <-. apply N.eqb_eq in E. subst. reflexivity.
+Qed.
+Lemma rsplit_once_some_contains c s a b : sc_rsplit_once c s = Some (a, b) -> contains_char c s = true.
+Proof.
+  intros H. apply rsplit_once_some in H. subst s. unfold contains_char. rewrite existsb_app. cbn [existsb].
+  rewrite N.eqb_refl. cbn [orb]. apply orb_true_r.
 Qed.
 Lemma rsplit_once_none c s : sc_rsplit_once c s = None -> contains_char c s = false.
 Proof.
@@ -274,13 +280,13 @@ Proof.
   apply sc_render_decl_bal. rewrite forallb_forall in Hok. exact (Hok d Hd).
 Qed.
 
-(* the class C10-scala-package-brace as a predicate of its own *)
-Definition c10_scala_brace_class (package : str) (pd : parsed) : bool := negb (contains_char 46 package) && c10_has_items pd.
-
-Theorem sc_generate_balanced pd text : dom_C10 CSC pd = true -> c10_scala_brace_class (sc_package cfg) pd = false ->
+(* every admissible package name: with a dot both blocks are opened and closed, without a dot neither an opener nor
+   a closer is printed (scala.rs end_package / end_package_object after the /repo fix of C10-scala-package-brace);
+   the empty package is begin_file's error, so no text exists for it *)
+Theorem sc_generate_balanced pd text : dom_C10 CSC pd = true ->
   sc_generate uc cfg pd = Ok text -> c10_balanced c10_lex_sc text = true.
 Proof.
-  intros Hdom Hcls H. unfold sc_generate in H.
+  intros Hdom H. unfold sc_generate in H.
   apply bind_ok in H as (head & Hhead & H). apply bind_ok in H as (pobj & Hpobj & H). apply bind_ok in H as (pkg & Hpkg & H). injection H as <-.
   pose proof Hcfg as Hc. unfold c10_sc_cfg_ok in Hc. rewrite !andb_true_iff in Hc. destruct Hc as [[_ Hver] Hpack].
   unfold dom_C10 in Hdom. rewrite !forallb_app in Hdom. rewrite !andb_true_iff in Hdom. destruct Hdom as [Hal [Hst [Hen _]]].
@@ -296,8 +302,11 @@ Proof.
     eapply tr_app; [exact Hh|]. destruct rs as [[parent last]|]; [|apply tr_nil].
     symmetry in Ers. apply rsplit_once_some in Ers. unfold c10_dotted_ok in Hpack. rewrite Ers, forallb_app in Hpack. apply andb_true_iff in Hpack as [Hpar _].
     pose proof (tok_bal c10_lex_sc parent (dotted_tok _ Hpar)) as Hpb. intros st. walk. reflexivity. }
+  assert (Bu : bal c10_lex_sc (if sc_unsigned_integer_used pd then sc_render_decl sc_unsigned_aliases else [])).
+  { destruct (sc_unsigned_integer_used pd); [apply sc_render_decl_bal; reflexivity|apply tr_nil]. }
   destruct (sc_rsplit_once sc_ch_dot (sc_package cfg)) as [[parent last]|] eqn:Er.
   - (* a package with a dot: both blocks are opened and closed *)
+    pose proof (rsplit_once_some_contains _ _ _ _ Er) as Hdot.
     pose proof (rsplit_once_some _ _ _ _ Er) as Es. pose proof Hpack as Hpack'. unfold c10_dotted_ok in Hpack'.
     rewrite Es, forallb_app in Hpack'. apply andb_true_iff in Hpack' as [_ Hlast]. cbn [forallb] in Hlast. apply andb_true_iff in Hlast as [_ Hlast].
     pose proof (tok_bal c10_lex_sc last (dotted_tok _ Hlast)) as Hlb.
@@ -305,26 +314,30 @@ Proof.
     { destruct (sc_unsigned_integer_used pd || negb (sc_is_empty (p_aliases pd))); [|injection Hpobj as <-; apply tr_nil].
       apply bind_ok in Hpobj as (aliases & Hal' & Hpobj). injection Hpobj as <-.
       pose proof (sc_items_bal _ _ Hal Hal') as Ba.
-      assert (Bu : bal c10_lex_sc (if sc_unsigned_integer_used pd then sc_render_decl sc_unsigned_aliases else [])).
-      { destruct (sc_unsigned_integer_used pd); [apply sc_render_decl_bal; reflexivity|apply tr_nil]. }
-      unfold sc_begin_package_object, sc_end_package_object. rewrite Er. intros st.
+      unfold sc_begin_package_object, sc_end_package_object. rewrite Er, Hdot. intros st.
       set (U := if sc_unsigned_integer_used pd then _ else _) in *. walk. reflexivity. }
     assert (Bpkg : bal c10_lex_sc pkg).
     { destruct (negb (sc_is_empty (p_structs pd)) || negb (sc_is_empty (p_enums pd))); [|injection Hpkg as <-; apply tr_nil].
       apply bind_ok in Hpkg as (structs & Hs' & Hpkg). apply bind_ok in Hpkg as (enums & He' & Hpkg). injection Hpkg as <-.
       pose proof (sc_items_bal _ _ Hst Hs') as Bs.
       pose proof (sc_items_bal _ _ Hen He') as Be.
-      unfold sc_begin_package, sc_end_package. rewrite Er. intros st. walk. reflexivity. }
+      unfold sc_begin_package, sc_end_package. rewrite Er, Hdot. intros st. walk. reflexivity. }
     apply bal_balanced. eapply tr_app; [exact Bhead|]. eapply tr_app; [exact Bobj|exact Bpkg].
-  - (* no dot: outside the finding class there is nothing to print *)
-    apply rsplit_once_none in Er. unfold c10_scala_brace_class in Hcls. change 46 with sc_ch_dot in Hcls. rewrite Er in Hcls. cbn [negb andb] in Hcls.
-    unfold c10_has_items in Hcls.
-    destruct (p_structs pd) eqn:E1; [|destruct (p_enums pd), (p_aliases pd); discriminate].
-    destruct (p_enums pd) eqn:E2; [|destruct (p_aliases pd); discriminate].
-    destruct (p_aliases pd) eqn:E3; [|discriminate].
-    assert (Hu : sc_unsigned_integer_used pd = false).
-    { unfold sc_unsigned_integer_used. rewrite E1, E2, E3. reflexivity. }
-    rewrite Hu in Hpobj. cbn in Hpobj. injection Hpobj as <-. cbn in Hpkg. injection Hpkg as <-.
-    apply bal_balanced. rewrite !app_nil_r. exact Bhead.
+  - (* no dot: neither block has an opener or a closer, the declarations stand at top level *)
+    pose proof (rsplit_once_none _ _ Er) as Hdot.
+    assert (Bobj : bal c10_lex_sc pobj).
+    { destruct (sc_unsigned_integer_used pd || negb (sc_is_empty (p_aliases pd))); [|injection Hpobj as <-; apply tr_nil].
+      apply bind_ok in Hpobj as (aliases & Hal' & Hpobj). injection Hpobj as <-.
+      pose proof (sc_items_bal _ _ Hal Hal') as Ba.
+      unfold sc_begin_package_object, sc_end_package_object. rewrite Er, Hdot. cbn [app]. rewrite app_nil_r.
+      eapply tr_app; [exact Bu|exact Ba]. }
+    assert (Bpkg : bal c10_lex_sc pkg).
+    { destruct (negb (sc_is_empty (p_structs pd)) || negb (sc_is_empty (p_enums pd))); [|injection Hpkg as <-; apply tr_nil].
+      apply bind_ok in Hpkg as (structs & Hs' & Hpkg). apply bind_ok in Hpkg as (enums & He' & Hpkg). injection Hpkg as <-.
+      pose proof (sc_items_bal _ _ Hst Hs') as Bs.
+      pose proof (sc_items_bal _ _ Hen He') as Be.
+      unfold sc_begin_package, sc_end_package. rewrite Er, Hdot. cbn [app]. rewrite app_nil_r.
+      eapply tr_app; [exact Bs|exact Be]. }
+    apply bal_balanced. eapply tr_app; [exact Bhead|]. eapply tr_app; [exact Bobj|exact Bpkg].
 Qed.
 End SCDecide.
